@@ -1140,7 +1140,8 @@ def run_property(ctx, prop, monitor, gen_kwargs, n_quick, n_thorough, replay=Non
         return ctx.finish(coverage, assumptions)
     rnd = random.Random(ctx.seed)
     if replay:
-        cases = [json.load(open(replay))["case"]]
+        rp = json.load(open(replay))
+        cases = [rp["case"] if "case" in rp else rp["first_disagreement"]["case"]]
     else:
         gk = dict(gen_kwargs)
         usage_share = gk.pop("usage_share", 0.0)     # share of usage-dense histories (Gen.usage_history)
